@@ -83,6 +83,16 @@ impl Monitor for C08 {
             } else if rng.chance(1, 10) {
                 b.0 = 0.0;
             }
+            // one operand in sixteen lies far from one axis (20..1000): tan and tanh have long reached
+            // their limits there while the intermediate cosh, sinh overflow
+            if rng.chance(1, 16) {
+                let big = (20.0 + rng.unit() * 980.0).round() * if rng.chance(1, 2) { -1.0 } else { 1.0 };
+                if rng.chance(1, 2) {
+                    a.1 = big;
+                } else {
+                    a.0 = big;
+                }
+            }
             let lit = |z: (f64, f64)| -> String {
                 if z.1 == 0.0 {
                     f64_expr(z.0).unwrap()
